@@ -72,6 +72,24 @@ func NestedRecords() int { return nestCalls }
 
 func (s LoggingStringer) String() string { NestedLog("String()"); return s.S }
 
+// TypedNilErrors switches on error values that are typed nils (see the "err" kind).
+var TypedNilErrors = true
+
+// NilSafeErr is a pointer error whose Error() accepts a nil receiver.
+type NilSafeErr struct{ S string }
+
+func (e *NilSafeErr) Error() string {
+	if e == nil {
+		return "nil-safe error (nil receiver)"
+	}
+	return e.S
+}
+
+// ErrList is a slice type that is an error; the nil slice is the empty list.
+type ErrList []error
+
+func (e ErrList) Error() string { return fmt.Sprintf("%d error(s) in the list", len(e)) }
+
 // LoggingError is an error whose Error() logs (see LoggingStringer).
 type LoggingError struct{ S string }
 
@@ -237,6 +255,16 @@ func (r *R) Scalar(kind string, o Options) V {
 		v.Go = errors.New(v.Text)
 		if NestingValues && r.P(20) {
 			v.Go = LoggingError{v.Text}
+		}
+		if TypedNilErrors && r.P(10) {
+			// an error variable that holds a nil pointer / a nil slice of a type whose Error() copes with that: it is
+			// an error value like any other and reads as what Error() returns
+			if r.Bool() {
+				v.Go = (*NilSafeErr)(nil)
+			} else {
+				v.Go = ErrList(nil)
+			}
+			v.Text = v.Go.(error).Error()
 		}
 	case "errv3":
 		v.Text = r.Str(o.Str)
